@@ -9,11 +9,11 @@ LEVEL = 'exploration'
 TIERS = {'quick': 12000, 'thorough': 600000}
 RULE = ('seeded sessions of 1-6 ops from {shell, exec_out, root, streaming_shell} x decode, device output 0..3*maxdata bytes over '
         'utf8/invalid-utf8/binary alphabets cut into 0..n WRTE payloads (empty payloads and cuts inside multi-byte sequences included), '
-        'every read fragmentation policy, strict/eager close, sync and async; in 12% of the sessions the link dies for good at one transport call (a cut-off command may raise, never return a part), in 10% one OPEN is answered only after the command has timed out (later commands must be unaffected); non-trivial = some command had >= 2 payloads and >= 1 read was '
+        'every read fragmentation policy, strict/eager close, sync and async; in 12% of the sessions the link dies for good at one transport call (a cut-off command may raise, never return a part), in 10% one OPEN is answered only after the command has timed out (later commands must be unaffected), in 3% a device with a large maxdata writes 2-3 payloads of one size >= 64 KiB in a row, rarely an output above 4 MiB is decoded; non-trivial = some command had >= 2 payloads and >= 1 read was '
         'fragmented; distinct = distinct event-log digests')
 ASSUMPTIONS = ['the device model emits only behaviour a conforming adbd can show (DESIGN 2.3)',
                'expected text is bytes.decode("utf8","backslashreplace") computed by the harness, not by adb_shell']
-EXPECT_PROBES = {'all': ['frag_reads', 'hdr_split', 'payload_split', 'empty_payload_wrte', 'utf8_split_across_wrte', 'c01_link_died_mid_command', 'late_open_okay', 'c01_ghost_left_packets_parked', 'c01_stale_generator_resumed', 'c01_equal_large_payloads']}
+EXPECT_PROBES = {'all': ['frag_reads', 'hdr_split', 'payload_split', 'empty_payload_wrte', 'utf8_split_across_wrte', 'c01_link_died_mid_command', 'late_open_okay', 'c01_ghost_left_packets_parked', 'c01_stale_generator_resumed', 'c01_equal_large_payloads', 'c01_output_gt_4mib']}
 KINDS = ['shell', 'shell', 'exec_out', 'streaming_shell', 'streaming_shell', 'root']
 OWN = ('wrong-result', 'unexpected-exception', 'timeout-instead-of-result', 'missing-exception', 'wrong-exception', 'hang', 'no-termination', 'deadlock')
 
@@ -44,6 +44,17 @@ def generate(seed, tier):
         scn['config'] = {'frag': g.pick(['whole', 'boundary']), 'p_empty': 0.0, 'call_cost': 1e-6}
         scn['actors'][0] = [ops[0], {'op': g.pick(KINDS_BIG), 'cmd': name, 'decode': g.chance(0.3)}]
         case['big_equal_chunks'] = True
+        return case
+    if g.chance(0.004 if tier == 'quick' else 0.0005):
+        # a very long output (more than 4 MiB of text) decoded as a whole
+        d = scn['device']
+        d['maxdata'] = 1048576
+        name = S.add_cmd(g, d, 100)
+        d['cmds'][name]['content'] = {'seed': g.int(0, 1 << 30), 'size': 4194304 + g.int(1, 200000), 'alpha': g.pick(['utf8', 'utf8', 'badutf8'])}
+        d['cmds'][name]['cuts'] = None
+        scn['config'] = {'frag': 'whole', 'p_empty': 0.0, 'call_cost': 1e-6}
+        scn['actors'][0] = [ops[0], {'op': g.pick(['shell', 'exec_out']), 'cmd': name, 'decode': True}]
+        case['huge_output'] = True
         return case
     if g.chance(0.06):
         # a streaming_shell generator is read part-way, the connection is closed and opened again, another command runs, and then
@@ -107,6 +118,8 @@ def evaluate(case, tapes=None):
     scn = case['scn']
     run, tape = run_scn(case, 'scn', 0, tapes)
     absorb(out, run, tape)
+    if case.get('huge_output'):
+        out['probes']['c01_output_gt_4mib'] = 1
     if case.get('big_equal_chunks'):
         out['probes']['c01_equal_large_payloads'] = 1
     fired = run.link.faults_fired
